@@ -21,7 +21,7 @@ def FromTx (a : Args) (t : DTx) (e : PEnt) : Prop :=
 /-- what `readd_detached_tx` requires of a transaction at its turn -/
 def Admissible (a : Args) (r : RArgs) (q : Pool) (t : DTx) : Prop :=
   resolves q a r t = true ∧ t.ok = true ∧ hasId q t.id = false ∧
-    (ancestorsOf q (linkParentsOf q t)).length + 1 ≤ r.maxAnc
+    (ancestorsOf q (linkParentsOf q t)).length + 1 ≤ a.maxAnc
 
 instance (a : Args) (r : RArgs) (q : Pool) (t : DTx) : Decidable (Admissible a r q t) := by
   unfold Admissible; infer_instance
@@ -39,7 +39,7 @@ theorem readdOne_reject {a : Args} {r : RArgs} {q : Pool} {t : DTx} (h : ¬ Admi
   by_cases h1 : (resolves q a r t && t.ok) = true
   · by_cases h3 : hasId q t.id = true
     · simp [h1, h3]
-    · by_cases h4 : (ancestorsOf q (linkParentsOf q t)).length + 1 > r.maxAnc
+    · by_cases h4 : (ancestorsOf q (linkParentsOf q t)).length + 1 > a.maxAnc
       · simp [h1, h3, h4]
       · exfalso; apply h
         simp only [Bool.and_eq_true] at h1
@@ -203,7 +203,7 @@ theorem apart_readd {a : Args} {r : RArgs} {q : Pool} {l1 : List DTx} {t : DTx}
 theorem admissible_of_apart {a : Args} {r : RArgs} {q : Pool} {t : DTx}
     (hq : ∀ e ∈ q, Apart t e.id e.spent e.deps e.outs)
     (hlive : ∀ o ∈ t.spent ++ t.deps, o ∈ r.live) (hh : ∀ h ∈ t.hdeps, h ∉ a.detachedHeaders)
-    (hok : t.ok = true) (hmax : 1 ≤ r.maxAnc) : Admissible a r q t := by
+    (hok : t.ok = true) (hmax : 1 ≤ a.maxAnc) : Admissible a r q t := by
   have hsp : ∀ o ∈ t.spent ++ t.deps, spentInPool q o = false := by
     intro o ho
     apply spentInPool_false
